@@ -392,4 +392,32 @@ def runVal {α} (m : M α α) (rf : Refuse) (st : List Bytes) (hp : Heap) (r : H
   | .pidx _ => .error .oob
   | .ub u => .error u
 
+/-! ## Outcomes of translated functions in the hand model's vocabulary -/
+
+/-- the outcome of a `Result<(), ReserveError>` method, as the hand model's `Res Unit` -/
+def resOf : Step (Rs Unit) (Rs Unit) → Res Unit
+  | .next (.ok _) s | .done (.ok _) s => .ok () s.hp s.self
+  | .next .err s | .done .err s => .err s.hp s.self
+  | .pidx s => .pidx s.hp s.self
+  | .ub u => .ub u
+
+/-- the outcome of a method returning `()` -/
+def resV : Step Unit Unit → Res Unit
+  | .next _ s | .done _ s => .ok () s.hp s.self
+  | .pidx s => .pidx s.hp s.self
+  | .ub u => .ub u
+
+/-- outcome of a method returning `Result<char, ReserveError>`; the character as its bytes -/
+def resOfChr : Step (Rs Chr) (Rs Chr) → Res Bytes
+  | .next (.ok c) s | .done (.ok c) s => .ok c.b s.hp s.self
+  | .next .err s | .done .err s => .err s.hp s.self
+  | .pidx s => .pidx s.hp s.self
+  | .ub u => .ub u
+
+def resOfOptChr : Step (Rs (Option Chr)) (Rs (Option Chr)) → Res (Option Bytes)
+  | .next (.ok c) s | .done (.ok c) s => .ok (c.map (·.b)) s.hp s.self
+  | .next .err s | .done .err s => .err s.hp s.self
+  | .pidx s => .pidx s.hp s.self
+  | .ub u => .ub u
+
 end LS.Rt
